@@ -23,7 +23,7 @@ def rp(rng, fam):
 
 
 def gen_pair(rng):
-    fam = rng.choice(['ll', 'll-vert', 'll-horiz', 'll-stem-bar', 'quad', 'quad-linear-x', 'cubic', 'cubic-elevated', 'cubic-straight', 'cubic-arch', 'cubic-vline', 'cubic-hline', 'cubic-near-elevated', 'cubic-near-straight', 'quad-near-linear', 'cubic-flat-end', 'end-hook', 'quad-flat-start', 'll-axis', 'curve-axis'])
+    fam = rng.choice(['ll', 'll-vert', 'll-horiz', 'll-stem-bar', 'quad', 'quad-linear-x', 'cubic', 'cubic-elevated', 'cubic-straight', 'cubic-arch', 'cubic-vline', 'cubic-hline', 'cubic-near-elevated', 'cubic-near-straight', 'quad-near-linear', 'cubic-flat-end', 'end-hook', 'quad-flat-start', 'll-axis', 'curve-axis', 'cubic-exact-double-root'])
     cf = rng.choice(['int', 'float'])
     def rline():
         return Line(rp(rng, cf), rp(rng, cf))
@@ -44,6 +44,24 @@ def gen_pair(rng):
         else: b = rline()
         if rng.random() < 0.5: a, b = b, a
         return fam, a, b
+    if fam == 'cubic-exact-double-root':
+        # along the line's normal the cubic is k (t - r)(t - s)^2 with a simple root r inside (0,1) and a DOUBLE root s outside [0,1], all in exactly
+        # representable numbers and with an exact alignment (horizontal line pointing in +x): Cardano's discriminant is then exactly 0.0 although
+        # the pair is in general position (one transversal crossing, no tangency on the segment)
+        r = rng.choice([0.25, 0.5, 0.75, 0.375, 0.625]); s_ = r + rng.choice([-1, 1]) * 1.5 * rng.choice([1.0, 2.0, 0.5])
+        if 0 <= s_ <= 1: s_ = r + 3.0
+        k = rng.choice([-1, 1]) * float(rng.choice([8, 16, 32, 64]))
+        pf = lambda t: k * (t - r) * (t - s_) ** 2
+        dpf = lambda t: k * ((t - s_) ** 2 + 2 * (t - r) * (t - s_))
+        ys = [pf(0.0), pf(0.0) + dpf(0.0) / 3.0, pf(1.0) - dpf(1.0) / 3.0, pf(1.0)]
+        y0 = float(rng.randint(-100, 100))
+        xs = sorted(float(rng.randint(-300, 300)) for _ in range(4))
+        if xs[3] - xs[0] < 30: xs[3] += 80.0
+        c = CubicBezier(*[P(x, y0 + y) for x, y in zip(xs, ys)])
+        l = Line(P(-400.0, y0), P(400.0, y0))
+        if rng.random() < 0.25:
+            c = CubicBezier(*[P(q.y, -q.x) for q in c.points]); l = Line(P(l[0].y, -l[0].x), P(l[1].y, -l[1].x))
+        return fam, c, l
     if fam == 'll-axis':
         # the crossing lies ON a coordinate axis (one coordinate of the crossing point is exactly or nearly 0, the other is not): an
         # axis-parallel line through the origin's row/column, crossed by a vertical / horizontal / general line
